@@ -1,17 +1,77 @@
 """Source of MANIFEST.json (run bin/mkmanifest after editing)."""
+COMMON_NOTE = ('Trusted: Coq 8.16.1 kernel + vm_compute VM (no native_compute, no extraction), harness drivers / '
+               'canonicalisers / literal emission, reflection of /repo tables (harness/gen_tables.py), CPython + '
+               'supervisor 4.x as semantics of the implementation side, logical clock. ')
+TECH = 'Coq proof over an executable Gallina model + differential correspondence evaluated by vm_compute'
+
+
+def claim(text, ref, note, technique=TECH):
+    return {'text': text, 'design_ref': ref, 'note': COMMON_NOTE + note, 'technique': technique}
+
+
 CLAIMED = {
-    'C11': {
-        'text': 'Coq proof that the executable model of ProcessStatus refines the abstract per-instance specification '
-                'written from the property (running list, conflict flag, synthetic and displayed state, forced-state '
-                'rules, loss frame) for every well-formed history of any length over any number of instances; the '
-                'model is tied to process.py on every run by differential execution of generated histories on the real '
-                'class, compared inside Coq (vm_compute), and the Coq specification itself is evaluated against the '
-                'implementation outputs as failing-input oracle.',
-        'design_ref': 'DESIGN.md §5 C11',
-        'note': 'Trusted: Coq kernel + VM, drivers/canonicalisers, literal emission, reflection of supervisor state '
-                'tuples. Modelled, not verified: ProcessStatus synthesis; descriptions, extra_args, pid, uptime not modelled.',
-        'technique': 'Coq refinement proof (induction over histories) + differential correspondence in vm_compute',
-    },
+    'C07': claim('Coq proofs over the node model (every event history, by induction): per-event instance discipline '
+                 '(documented instance graph, local instance never ISOLATED, ISOLATED absorbing), completeness and '
+                 'accuracy of failure detection in local-tick counts (live_peer_never_lost, window_formulation), '
+                 'ISOLATED only with auto_fence or by the handshake; the same boolean checkers are evaluated on the '
+                 'observations of the real Context/FSM/listener in every run.', 'DESIGN.md §5 C07',
+                 'Modelled, not verified: instancestatus.py, context.py timer/invalidation, statemachine.py; the FATAL '
+                 'marking of lost processes is proved in C11 (loss_makes_fatal). Hypothesis tick_sane: the local TICK '
+                 'counter never goes backwards. Wall-clock vs tick drift not exhibited.'),
+    'C08': claim('Cluster-level executable model (N instances, FIFO per ordered pair, local notification queue, '
+                 'handshake reads, crashes/restarts/cuts) tied to the real classes composed by a harness transport; '
+                 'the Coq convergence spec (every live instance back in the state of its live self-acknowledged Master, '
+                 'OPERATION/CONCILIATION) is evaluated on the last observed state after fault prefixes + quiet rounds; '
+                 'theorems: see DESIGN (decision/table analysis, agreement core). Two genuine parking defects found by '
+                 'this check were fixed (CONCILIATION->ELECTION, slave stuck in ELECTION).', 'DESIGN.md §5 C08',
+                 'PARTIAL: liveness under arbitrary asynchronous schedules is not proved (only safety lemmas + bounded '
+                 'quiet-round convergence observed on the implementation and the model); provisos: TIMEOUT selected, '
+                 'clean isolation among live instances, process plane idle during quiet rounds.'),
+    'C11': claim('Coq proof that the executable model of ProcessStatus refines the abstract per-instance specification '
+                 'written from the property (running list, conflict flag, synthetic and displayed state, forced-state '
+                 'rules, loss frame) for every well-formed history of any length over any number of instances; the '
+                 'model is tied to process.py on every run by differential execution of generated histories on the real '
+                 'class, compared inside Coq (vm_compute), and the Coq specification itself is evaluated against the '
+                 'implementation outputs as failing-input oracle.', 'DESIGN.md §5 C11',
+                 'Modelled, not verified: ProcessStatus synthesis; descriptions, extra_args, pid, uptime not modelled.'),
+    'C13': claim('Coq proofs over the node model for every event history: an ISOLATED instance is frozen (state and '
+                 'counters unchanged by any tick / publication / handshake result claiming to come from it, no handshake '
+                 'requested), ISOLATED is absorbing, the AUTHORIZATION result is only taken into account in CHECKING with '
+                 'a newer timestamp (AUTHORIZED->CHECKED, NOT_AUTHORIZED/INCONSISTENT->ISOLATED, UNKNOWN->STOPPED); '
+                 'process-plane clause (events only from CHECKED/RUNNING peers) in the replication model (C12).',
+                 'DESIGN.md §5 C13',
+                 'Modelled, not verified: Context.is_valid + listener dispatch + on_authorization; the computation of the '
+                 'authorization code by SupervisorProxy._is_authorized is exercised by the cluster suite only. '
+                 'Reciprocity at cluster level is not proved.'),
+    'C14': claim('Coq proofs (all layouts, loads, request maps, candidate lists): each of the six starting strategies '
+                 'returns a valid candidate that is optimal for the documented lexicographic key with the exact tie '
+                 'rule, None iff no valid candidate; SINGLE_INSTANCE / SINGLE_NODE distribution theorems; model = real '
+                 'strategy.py / commander distribute_* / mapper.identify on generated cases.', 'DESIGN.md §5 C14',
+                 'Named hypotheses nodes_nodup / nodes_consistent for the true-node-load reading (proved to hold after '
+                 'any handshake history).'),
+    'C15': claim('Coq proofs for every list of process states / every formula AST: application state priority, '
+                 'required-based major/minor failure, formula denotation on the whitelisted fragment, totality (any '
+                 'other construct => parse error => major failure, never a crash), no other execution; the driver '
+                 'translates the real Python AST and audits eval/exec/compile/import at run time.', 'DESIGN.md §5 C15',
+                 'Regex engine is an oracle; formulas nested deeper than 64 are outside (RecursionError).'),
+    'C17': claim('Exhaustive re-measured matrix (every public XML-RPC x 9 states x Master/non-Master/no Master x '
+                 'parameter variants on real RPCInterface/FSM brought to the state by a real history) compared in Coq '
+                 'with the documented gates written from the property; theorems: gate matrix = documentation, rejected '
+                 'calls are effect-free, fault codes.', 'DESIGN.md §5 C17',
+                 'Finite domain fully enumerated on every run (exhaustive); interpretation: FINAL refuses everything.',
+                 'Coq proof over a finite re-measured table (T2 exhaustive tabulation) + model'),
+    'C18': claim('Coq proofs for every rules document / option dictionary: lookup precedence, bounded model recursion '
+                 '(termination incl. cycles), domain frame, dependency rules, alias and sign resolution, option ranges; '
+                 'model = real Parser / ProcessRules / ApplicationRules / SupvisorsOptions on generated XML documents and '
+                 'option dictionaries.', 'DESIGN.md §5 C18',
+                 'Regex, XML and XSD engines are oracles; hypothesis doc_unambiguous (no duplicate declarations).'),
+    'C20': claim('Coq proofs by induction over every sample stream: history bounds, alignment of value and time series '
+                 'through appearing/vanishing keys and counter wraps, period gate, I/O rates finite and >= 0, CPU in '
+                 '[0,100] (Flocq/PrimFloat, bit-exact with Python floats), stopped process dropped, pid change resets; '
+                 'bit-exact differential runs against statscompiler.py.', 'DESIGN.md §5 C20',
+                 'Numeric theorems depend on the stdlib FloatAxioms (primitive float specification) and, through Flocq, on '
+                 'the stdlib real-number axioms (ClassicalDedekindReals.sig_forall_dec, sig_not_dec, Classical_Prop.classic, '
+                 'functional_extensionality_dep). Hypotheses: depth >= 1, CPU count not shrinking (known finding F24).'),
 }
 PENDING_REASON = 'check not built yet in this session (planned, see DESIGN.md §8); not claimed until it exists'
 ALL = [f'C{n:02d}' for n in range(1, 21)]
